@@ -28,7 +28,7 @@ def replay(path):
     except C.BuildError as e:
         print("native build failed:", e.what, e.output[-1500:])
         return 1
-    lines = []
+    lines = list(rep.get("history_same_process") or [])
     for key in ("case", "case_a", "case_b", "case_general", "case_assortative", "case_r", "case_r_prime",
                 "case_original", "library_case"):
         v = rep.get(key)
